@@ -530,7 +530,16 @@ class MultisetGen(object):
                 stmts.append({'op': 'iadd', 'a': acc, 'b': t})
         if stmts[-1]['op'] == 'iadd' or acc != nvars - 1:
             stmts.append({'op': 'alias', 'src': acc})
-        return stmts
+        # read-only uses (print, Hill form, atoms, mass) of intermediate values between the operations:
+        # hostile to any state a formula keeps about itself
+        out, nv = [], 0
+        for st in stmts:
+            out.append(st)
+            if st['op'] != 'iadd':
+                nv += 1
+            if rng.random() < 0.35:
+                out.append({'op': 'observe', 'src': rng.randrange(nv)})
+        return out
 
     def case(self, multi, zero):
         from ..gen.programs import run_shadow, dumps
